@@ -26,6 +26,7 @@ def flat(arr):
 
 @register
 class N1dArrays(Contract):
+    functional = True
     """Functional contract: the first n arrays, each atleast_1d and raveled in C order."""
 
     target = BU + ":n_1d_arrays"
@@ -71,6 +72,7 @@ class N1dArrays(Contract):
 
 @register
 class CheckCoordinates(Contract):
+    functional = True
     target = BU + ":check_coordinates"
     cover_raise = True
 
@@ -113,6 +115,7 @@ class CheckCoordinates(Contract):
 
 @register
 class KDTree(Contract):
+    functional = True
     """verde.utils.kdtree: tree over the raveled coordinates, point j = (c0.flat[j], c1.flat[j], ...)."""
 
     target = "verde.utils:kdtree"
